@@ -184,9 +184,14 @@ impl<T> BlobLocations<T> {
     }
     pub fn can_coalesce(&self, other: &Self) -> bool {
         // if the blobs are (almost) contiguous and we don't trespass the limit, blobs can be read in one partial read
-        other.offset <= self.offset + self.length + constants::MAX_HOLESIZE
+        #[cfg(feature = "verif-hooks")]
+        let (max_holesize, limit_pack_read) =
+            crate::verif::pack_read_limits((constants::MAX_HOLESIZE, constants::LIMIT_PACK_READ));
+        #[cfg(not(feature = "verif-hooks"))]
+        let (max_holesize, limit_pack_read) = (constants::MAX_HOLESIZE, constants::LIMIT_PACK_READ);
+        other.offset <= self.offset + self.length + max_holesize
             && other.offset >= self.offset + self.length
-            && other.offset + other.length - self.offset <= constants::LIMIT_PACK_READ
+            && other.offset + other.length - self.offset <= limit_pack_read
     }
 
     pub fn append(mut self, mut other: Self) -> Self {
